@@ -204,13 +204,24 @@ def exit (st : State) (a : Nat) : State × List Ev :=
 thread's `join`/`leave`/`monitor` runs between them; the harness reports each region.
 
 * `markDead a`      `inner.set_status(≥ Stopping)` is published
-* `demonitorAll a`  (its forward-map updates never produce notifications, so it is one step)
+* `demonTake a`, `demonKey a k`, `demonWKey a s`   `demonitor_all`: drain, then one entry at a time
 * `takeMem a`       `leave_all`: memberships drained from the reverse index under its lock
 * `leaveKey a k`    one iteration of the loop: the forward entry of `k` under its lock
 * `finishLeave a`   `remove_empty_actor_relations` + the notifications
 -/
 
 def markDead (st : State) (a : Nat) : State := { st with dead := ins a st.dead }
+
+/-- `demonitor_all`: monitor sets drained from the reverse index under its lock -/
+def demonTake (st : State) (a : Nat) : State :=
+  { st with rel := alter st.rel a (fun o => o.map (fun r => { r with gmon := [], wmon := [] })) }
+
+/-- `demonitor_all`: one iteration over a group key (until then the stale listener keeps the
+group entry alive, so a concurrent `leave_scoped` of that group still notifies) -/
+def demonKey (st : State) (a : Nat) (k : Key) : State := { st with map := alter st.map k (dropListener a) }
+
+/-- `demonitor_all`: one iteration over a world key -/
+def demonWKey (st : State) (a : Nat) (s : Nat) : State := { st with world := alter st.world s (dropWorldListener a) }
 
 def takeMem (st : State) (a : Nat) : State :=
   { st with rel := alter st.rel a (fun o => o.map (fun r => { r with mem := [] })) }
@@ -300,6 +311,12 @@ def specMember (before : Nat → Nat → Nat → Prop) (isAlive : Nat → Prop) 
   | .leave s g as, s', g', a => before s' g' a ∧ ¬ (s' = s ∧ g' = g ∧ a ∈ as)
   | .exit b, s', g', a => before s' g' a ∧ (a ≠ b ∨ ¬ isAlive b)
   | _, s', g', a => before s' g' a
+
+/-- the specification's run: (membership relation, set of stopping actors), evolved op by op -/
+def specRun : (Nat → Nat → Nat → Prop) × (Nat → Prop) → List Op → (Nat → Nat → Nat → Prop) × (Nat → Prop)
+  | md, [] => md
+  | md, op :: ops =>
+    specRun (specMember md.1 (fun x => ¬ md.2 x) op, fun a => md.2 a ∨ (op = .exit a)) ops
 
 /-! ### The observable predicate `ok` on a snapshot of the four indexes -/
 
